@@ -264,6 +264,16 @@ def apply_op(s: Subject, op, tmp: Path):
     elif o == "parts":
         doc.get_parts()
     elif o == "read_xml":
+        n = {"content": "content.xml", "styles": "styles.xml", "meta": "meta.xml", "settings": "settings.xml", "manifest": MANIFEST}[op[1]]
+        if n not in s.files:
+            # the package does not have this (optional) part: the call is refused and leaves nothing behind (a part object that
+            # cannot be loaded, left among the parsed parts, made every later save of the document raise: C11-F5, fixed)
+            try:
+                got = doc.get_part(op[1])
+            except (ValueError, KeyError, OSError):
+                s.log[-1] = s.log[-1] + ["absent: refused"]
+                return "NOOP"
+            return f"get_part({op[1]!r}) of a part the package does not have returned a {type(got).__name__} (unusable, and registered among the parsed parts) instead of refusing"
         doc.get_part(op[1])
     else:
         raise AssertionError(op)
